@@ -64,6 +64,8 @@ var registry = []propertySpec{
 				Bounds: "the ported regexp matcher on strings of 1..4 symbolic bytes through 7 patterns (match, submatches, replace)"},
 			{Name: "VerifSelf_Format", Quick: tierSpec{Cases: 3}, Thorough: tierSpec{Cases: 3}, Sched: -1,
 				Bounds: "fmt verbs, Itoa, json.Marshal / MarshalIndent, sort on a symbolic integer and a string of 0..2 symbolic bytes"},
+			{Name: "VerifSelf_Atoi", Quick: tierSpec{Cases: 9}, Thorough: tierSpec{Cases: 9}, Sched: -1,
+				Bounds: "strconv.Atoi on 18..20 digits around the ends of the int64 range (last 1..4 digits symbolic), unsigned and signed: saturation and range error"},
 			{Name: "VerifSelf_Sort", Quick: tierSpec{Cases: 3}, Thorough: tierSpec{Cases: 3}, Sched: -1,
 				Bounds: "sort.Slice and sort.SliceStable on 13, 17 and 21 records with keys in 0..2 (three of them symbolic): the order of equal elements as the library's pdqsort leaves it"},
 		},
@@ -115,6 +117,8 @@ var registry = []propertySpec{
 				Bounds: "every input of 0..6 (thorough: 7 and 8) ASCII bytes (all bytes symbolic, 0x00-0x7f) x both decoder options"},
 			{Name: "VerifC03_Adversarial", Quick: tierSpec{Cases: 40}, Thorough: tierSpec{Cases: 40}, Sched: -1,
 				Bounds: "10 hostile file templates (first line at level > 0, HUSB/WIFE/CHIL before or outside a family, record tags nested, tag of arbitrary bytes, unparsable middle line, BOM with CR/LF runs) with symbolic level digit 0..9 and 2 symbolic value bytes x both options"},
+			{Name: "VerifC03_LongLevels", Quick: tierSpec{Cases: 72}, Thorough: tierSpec{Cases: 72}, Sched: -1,
+				Bounds: "level numbers of 2, 3, 18, 19, 20 and 21 symbolic digits (every number up to and beyond the 64-bit range) as first line, below a record and below a nested line x both options"},
 			{Name: "VerifC02_Levels", Quick: tierSpec{Cases: 8}, Thorough: tierSpec{First: 8, Cases: 4, Split: 3}, Sched: -1,
 				Bounds: "the C02 line-grammar harness (its totality assertions)"},
 		},
